@@ -315,6 +315,7 @@ func (n *bNode) startNode() error {
 		return a < b
 	})
 	collect.SimHeapAlloc = simHeapHook
+	collect.SimOrderTraces = tieOrder(w.p.Seed)
 	heapNodes.Store(n.coll, n)
 	if err := startstop.Start(n.objects, nullStartStopLogger{}); err != nil {
 		return fmt.Errorf("start: %w", err)
